@@ -104,7 +104,7 @@ def main():
                      "kind_free_text": "runtime monitoring harness: probes on the real ahrs callables, reference-model / invariant / history monitors, seeded stratified workloads, shard runner with three-valued verdicts"}],
         "checks": checks,
         "not_applicable": na,
-        "notes": "Exit codes: 0 held (possibly with KNOWN-FINDING lines), 1 violated (VIOLATION lines), 2 inconclusive (INCONCLUSIVE lines; never on the unchanged tree). AHRS_TREE selects the tree under test (default /repo, imported from its working tree). Every call of the code under test runs under a wall-clock watchdog whose firing decides nothing: the call is repeated under a statement counter and only more than 3e7 statements inside the tree (a logical bound) is reported, as the exception NonTermination. VERIF_SEED, VERIF_TIER, VERIF_DEPTH (thorough depth) and VERIF_NO_EVIDENCE=1 (evidence and replays diverted to .work/) are honoured.",
+        "notes": "Exit codes: 0 held (possibly with KNOWN-FINDING lines), 1 violated (VIOLATION lines), 2 inconclusive (INCONCLUSIVE lines; never on the unchanged tree). AHRS_TREE selects the tree under test (default /repo, imported from its working tree). Every call of the code under test runs under a wall-clock watchdog whose firing decides nothing: the call is repeated under a statement counter and only more than 3e8 statements inside the tree (a logical bound) is reported, as the exception NonTermination. VERIF_SEED, VERIF_TIER, VERIF_DEPTH (thorough depth) and VERIF_NO_EVIDENCE=1 (evidence and replays diverted to .work/) are honoured.",
     }
     with open(os.path.join(HERE, "MANIFEST.json"), "w") as f:
         json.dump(m, f, indent=1)
